@@ -90,6 +90,11 @@ HEADER_U = HEADER + ('From CF Require Import C18.Uart.\n'
                      '  let \'(os, b2, l2) := uart_run ops b (negb (lock =? 0)) in\n'
                      '  zlen b2 :: (if l2 then 1 else 0) :: flat os.\n')
 
+HEADER_C = HEADER + ('Definition cpx_case (takes : list Z) (s : sock) (evs : list cev) : list Z :=\n'
+                     '  let \'(c, os) := c_run takes (mk_cs s r_init true) evs in\n'
+                     '  zlen (concat (cs_in c)) :: (if cs_open c then 1 else 0) :: flat (map enc_cobs os)\n'
+                     '  ++ concat (map (fun f => enc_queue (cs_rt c f)) qfs).\n')
+
 QFS = [0, 1, 2, 3, 4, 5, 9, 14, 15, 63]
 TARGETS = [1, 2, 3, 4]
 FUNCTIONS = [1, 2, 3, 4, 5, 14, 15]
@@ -103,10 +108,13 @@ class _Stop(BaseException):
 class Sock:
     """Scripted stream socket: recv(n) returns the next piece (or its first n bytes)."""
 
-    def __init__(self, chunks):
+    def __init__(self, chunks, takes=None):
         self.chunks = [bytes(c) for c in chunks]
-        self.sent = []
+        self.sent = []          # what each send call put on the stream
         self.recv_sizes = []
+        self.takes = list(takes or [])   # bytes the k-th send call of one operation takes (then: everything)
+        self.ti = 0
+        self.closed = False
 
     def recv(self, n):
         self.recv_sizes.append(n)
@@ -122,8 +130,27 @@ class Sock:
         return c[:n]
 
     def send(self, d):
-        self.sent.append(bytes(d))
-        return len(d)
+        d = bytes(d)
+        n = len(d)
+        if self.ti < len(self.takes):
+            n = min(n, self.takes[self.ti])
+        self.ti += 1
+        self.sent.append(d[:n])
+        return n
+
+    def sendall(self, d):      # socket.sendall: loop over send until everything is out
+        d = bytes(d)
+        while d:
+            d = d[self.send(d):]
+
+    def stream(self):
+        return b''.join(self.sent)
+
+    def shutdown(self, how):
+        pass
+
+    def close(self):
+        self.closed = True
 
     def pending(self):
         return sum(len(c) for c in self.chunks)
@@ -142,10 +169,10 @@ def _mods():
     return cpx, tr
 
 
-def _transport(chunks):
+def _transport(chunks, takes=None):
     cpx, tr = _mods()
     t = object.__new__(tr.SocketTransport)
-    t._socket = Sock(chunks)
+    t._socket = Sock(chunks, takes)
     return t
 
 
@@ -174,6 +201,8 @@ def _exc_code(e):
         return 3
     if isinstance(e, EOFError):
         return 4
+    if isinstance(e, AttributeError):
+        return 5
     return 90
 
 
@@ -221,14 +250,14 @@ def make_packet(s, d, f, last, data, ver=0):
     return p
 
 
-def impl_write(p):
-    t = _transport([])
+def impl_write(p, takes=None):
+    """real writePacket; result = the bytes that reached the stream (send calls may take only part)"""
+    t = _transport([], takes)
     try:
         t.writePacket(p)
     except Exception as e:  # noqa
         return [1, _exc_code(e)], None
-    assert len(t._socket.sent) == 1, 'writePacket must hand one buffer to send'
-    b = t._socket.sent[0]
+    b = t._socket.stream()
     return [0, len(b)] + list(b), b
 
 
@@ -330,16 +359,15 @@ def _crtp(mode, a, b, data):
     return pk
 
 
-def impl_uplink(kind, mode, a, b, data):
-    t = _transport([])
+def impl_uplink(kind, mode, a, b, data, takes=None):
+    t = _transport([], takes)
     with _quiet():
         drv, _, _ = _driver(kind, t)
         try:
             drv.send_packet(_crtp(mode, a, b, data))
         except Exception as e:  # noqa
             return [1, _exc_code(e)]
-    assert len(t._socket.sent) == 1
-    bts = t._socket.sent[0]
+    bts = t._socket.stream()
     return [0, len(bts)] + list(bts)
 
 
@@ -381,6 +409,151 @@ def impl_downlink(kind, chunks, n, real=None):
     return out, errors
 
 
+# ---- the CPX facade with the router running as a real thread, behind a deterministic gate
+class GateTransport:
+    """The router thread may start an iteration (readPacket) only when the driver hands it a token; when it comes
+    back for the next one it reports idle.  So exactly one thread moves at a time and a session replays exactly."""
+
+    def __init__(self, real):
+        import threading
+        self.real = real
+        self.tokens = threading.Semaphore(0)
+        self.idle = threading.Event()
+        self.closed = False
+
+    def readPacket(self):
+        self.idle.set()
+        self.tokens.acquire()
+        if self.closed:
+            raise OSError('transport closed')
+        return self.real.readPacket()
+
+    def writePacket(self, p):
+        self.real.writePacket(p)
+
+    def disconnect(self):
+        self.real.disconnect()
+
+
+def _enc_opt(p):
+    return [0] if p is None else [1] + _enc_pkt(p)
+
+
+def impl_cpx_session(chunks, takes, events):
+    """events: ['P'] | ['R', f] | ['S', pkt] | ['T', pkt, k] | ['C'];  pkt = [s, d, f, last, data].
+    Drives a real cflib.cpx.CPX (router thread started by its constructor)."""
+    import threading
+    import time
+    cpx, _ = _mods()
+    real = _transport(chunks, takes)
+    sock = real._socket
+    gate = GateTransport(real)
+    obs = []
+    gets = {}
+    extra_puts = {}
+
+    def wait_idle():
+        if not gate.idle.wait(10):
+            raise AssertionError('router thread did not come back to the gate')
+
+    def pump():
+        if gate.closed:
+            return
+        gate.idle.clear()
+        gate.tokens.release()
+        wait_idle()
+
+    def sent_since(n0):
+        return b''.join(sock.sent[n0:])
+
+    with _quiet():
+        c = cpx.CPX(gate)
+        router = c._router
+        wait_idle()
+        for e in events:
+            sock.ti = 0
+            n0 = len(sock.sent)
+            if e[0] == 'P':
+                pump()
+            elif e[0] == 'R':
+                try:
+                    p = c.receivePacket(_fn_member(e[1]), timeout=0)
+                    gets[e[1]] = gets.get(e[1], 0) + 1
+                    obs.append([20, e[1]] + _enc_opt(p))
+                except queue.Empty:
+                    obs.append([20, e[1], 0])
+            elif e[0] == 'S':
+                try:
+                    c.sendPacket(make_packet(*e[1]))
+                    b = sent_since(n0)
+                    obs.append([21, 0, len(b)] + list(b))
+                except Exception as ex:  # noqa
+                    obs.append([21, 1, _exc_code(ex)])
+            elif e[0] == 'T':
+                f = e[1][2]
+                box = {}
+
+                def run(pkt=e[1]):
+                    try:
+                        box['r'] = c.makeTransaction(make_packet(*pkt))
+                    except Exception as ex:  # noqa
+                        box['e'] = ex
+                th = threading.Thread(target=run, daemon=True)
+                th.start()
+                # until the call has sent its request and created its queue (or has failed)
+                while th.is_alive() and not (f in router._rxQueues and len(sock.sent) > n0):
+                    time.sleep(0.0002)
+                for _ in range(e[2]):
+                    pump()
+                if th.is_alive() and 'r' not in box:
+                    q = router._rxQueues[f]
+                    puts = q.unfinished_tasks - extra_puts.get(f, 0)
+                    if puts <= gets.get(f, 0):
+                        # nothing for it: the call is blocked in queue.get() for ever -> release it with a marker
+                        q.put(None)
+                        extra_puts[f] = extra_puts.get(f, 0) + 1
+                        th.join(10)
+                        assert box.get('r', 0) is None
+                        b = sent_since(n0)
+                        obs.append([22, 0, len(b)] + list(b) + [0])
+                        continue
+                th.join(10)
+                if 'e' in box:
+                    obs.append([22, 1, _exc_code(box['e']), 0])
+                else:
+                    gets[f] = gets.get(f, 0) + 1
+                    b = sent_since(n0)
+                    obs.append([22, 0, len(b)] + list(b) + _enc_opt(box['r']))
+            elif e[0] == 'C':
+                try:
+                    was_open = not gate.closed
+                    c.close()
+                    obs.append([23, 1])
+                except AttributeError:
+                    obs.append([23, 0])
+                if not gate.closed:
+                    gate.closed = True
+                    gate.tokens.release()
+                    router.join(10)
+        alive_before_cleanup = router.is_alive()
+        if not gate.closed:                      # end of the session: let the thread go
+            router._connected = False
+            gate.closed = True
+            gate.tokens.release()
+        router.join(10)
+    out = [sock.pending(), 1 if alive_before_cleanup else 0] + coqrun.flat(obs)
+    for f in QFS:
+        q = router._rxQueues.get(f)
+        if q is None:
+            out.append(-1)
+        else:
+            items = [x for x in q.queue if x is not None]
+            out.append(len(items))
+            for p in items:
+                out += _enc_pkt(p)
+    return out, obs, {'thread_alive_after': router.is_alive(), 'sock': sock, 'router': router}
+
+
 # ---- UARTTransport (serial path)
 class FakeSerial:
     """pyserial port with timeout=None: read(n) returns exactly n bytes (here: raises when the script is exhausted)"""
@@ -404,12 +577,36 @@ class FakeSerial:
         pass
 
 
+class _WouldBlock(BaseException):
+    pass
+
+
+class GuardLock:
+    """threading.Lock semantics, except that an acquire that would block for ever raises instead"""
+
+    def __init__(self):
+        self.held = False
+
+    def acquire(self, blocking=True, timeout=-1):
+        if self.held:
+            raise _WouldBlock()
+        self.held = True
+        return True
+
+    def release(self):
+        if not self.held:
+            raise RuntimeError('release unlocked lock')
+        self.held = False
+
+    def locked(self):
+        return self.held
+
+
 def _uart(data, locked=False):
-    import threading
     _, tr = _mods()
     t = object.__new__(tr.UARTTransport)
     t._serial = FakeSerial(data)
-    t._lock = threading.Lock()
+    t._lock = GuardLock()
     if locked:
         t._lock.acquire()
     return t
@@ -425,15 +622,14 @@ def impl_uart_run(ops, data, locked):
         for op in ops:
             nw = len(t._serial.written)
             if op[0] == 'W':
-                if t._lock.locked():
-                    outs.append([11])           # writePacket would block in acquire()
-                    continue
                 try:
                     with contextlib.redirect_stdout(io.StringIO()):
                         t.writePacket(make_packet(*op[1:]))
                     assert len(t._serial.written) == nw + 1
                     outs.append([10] + list(t._serial.written[-1]))
-                except TypeError:
+                except _WouldBlock:
+                    outs.append([11])           # writePacket would block in acquire()
+                except (TypeError, ValueError):
                     outs.append([12])
                 continue
             buf = io.StringIO()
@@ -591,7 +787,7 @@ def tie(ctx):
     nontriv = set()
     n_eval = 0
     samples = []
-    coqrun.make(['C18/Examples.vo', 'C18/Uart.vo'], timeout=600)      # non-vacuity examples / UART model must keep checking
+    coqrun.build('C18/Examples.v', timeout=600)      # non-vacuity examples (and C18/Uart.v) must keep checking
 
     def run_blocks(tag, terms, exp, descr, shard, count=None, header=None):
         # outputs are compared through two 64-bit polynomial hashes computed inside Coq (cheap: no division);
@@ -659,6 +855,25 @@ def tie(ctx):
         exp.append(e)
     run_blocks('c18c', terms, exp, lambda bi: {'what': 'SocketTransport.writePacket differs from write_packet',
                                                 'payload_len': lens[bi]}, 2)
+    # short writes (each send call takes only some bytes) and packets whose data was assigned after construction
+    terms, exp, wcs = [], [], []
+    for i in range(ctx.scale(120, 1500)):
+        s_, d_, f_, last = rng.choice(TARGETS), rng.choice(TARGETS), rng.choice(FUNCTIONS), rng.randrange(2)
+        data = _rand_payload(rng)
+        takes = [rng.choice([1, 1, 2, 3, 5, 64, 1000]) for _ in range(rng.randrange(0, 6))]
+        p = make_packet(s_, d_, f_, last, data)
+        n_attr = len(data)
+        if i % 3 == 0:                         # data replaced after construction: `length` keeps the old value
+            data = _rand_payload(rng)
+            p.data = bytearray(data)
+        e, _ = impl_write(p, takes)
+        terms.append('enc_resb (tx_packet %s (mkp %d %d %d %d 0 %d %s))' % (coqrun.zlist(takes), s_, d_, f_, last, n_attr,
+                                                                          coqrun.zlist(data)))
+        exp.append(e)
+        wcs.append({'what': 'bytes put on the stream by writePacket differ from tx_packet', 'takes': takes,
+                    'packet': [s_, d_, f_, last, data], 'length_attribute': n_attr})
+    run_blocks('c18w', terms, exp, lambda bi: wcs[bi], 40)
+    dist['short_write_cases'] = len(wcs)
     dist['write_lengths'] = lens
 
     # ---- D. exhaustive fragmentation of short streams (every cut set), real readPacket vs read_n
@@ -786,6 +1001,65 @@ def tie(ctx):
     dist['tunnel_uplink'] = n_tun
     dist['tunnel_downlink'] = n_tun
     samples.append({'uplink': tcs[0], 'impl_bytes': impl_uplink(tcs[0]['driver'], tcs[0]['mode'], tcs[0]['a'], tcs[0]['b'], tcs[0]['data'])})
+
+    # ---- H. CPX facade, router as a real thread behind the gate: send / receive / transaction / close sessions
+    def ev_term(e):
+        def pk(a):
+            return '(mkp %d %d %d %d 0 %d %s)' % (a[0], a[1], a[2], a[3], len(a[4]), coqrun.zlist(a[4]))
+        if e[0] == 'P':
+            return 'CPump'
+        if e[0] == 'R':
+            return 'CRecv %d' % e[1]
+        if e[0] == 'S':
+            return 'CSend ' + pk(e[1])
+        if e[0] == 'T':
+            return 'CTransact %s %d%%nat' % (pk(e[1]), e[2])
+        return 'CClose'
+    n_c = ctx.scale(220, 3000)
+    terms, exp, ccs = [], [], []
+    ekinds = {}
+    for i in range(n_c):
+        nf = rng.choice([1, 2, 3, 4, 6])
+        fs = rng.sample(FUNCTIONS, rng.choice([1, 2, 3]))
+        frames = []
+        for _ in range(nf):
+            fr, kd = _rand_frame(rng, 0.1)
+            if kd == 'ok' and rng.random() < 0.8:
+                fr = fr[:3] + bytes([rng.choice(fs)]) + fr[4:]
+            frames.append(fr)
+        stream = b''.join(frames)
+        bounds = list(itertools.accumulate([0] + [len(f) for f in frames]))[:-1]
+        cuts = _rand_cuts(rng, len(stream), bounds)
+        chunks = _cut(stream, cuts)
+        takes = [rng.choice([1, 2, 3, 7, 100]) for _ in range(rng.randrange(0, 4))]
+        evs = []
+        for _ in range(rng.randrange(2, 2 * nf + 6)):
+            k = rng.choice(['P', 'P', 'P', 'R', 'R', 'S', 'T', 'C'] if rng.random() < 0.3 else ['P', 'P', 'R', 'R', 'S', 'T'])
+            ekinds[k] = ekinds.get(k, 0) + 1
+            pkt = [rng.choice(TARGETS), rng.choice(TARGETS), rng.choice(fs), rng.randrange(2),
+                   [rng.randrange(256) for _ in range(rng.choice([0, 1, 2, 5, 31]))]]
+            if k == 'P':
+                evs.append(['P'])
+            elif k == 'R':
+                evs.append(['R', rng.choice(fs + [rng.choice(FUNCTIONS)])])
+            elif k == 'S':
+                evs.append(['S', pkt])
+            elif k == 'T':
+                evs.append(['T', pkt, rng.randrange(0, 3)])
+            else:
+                evs.append(['C'])
+        out, _, info = impl_cpx_session(chunks, takes, evs)
+        terms.append('cpx_case %s %s [%s]' % (coqrun.zlist(takes), _sock_term(chunks), '; '.join(ev_term(e) for e in evs)))
+        exp.append(out)
+        ccs.append({'what': 'CPX facade session (router thread) differs from c_run', 'kind': 'cpx', 'takes': takes,
+                    'chunks': [list(c) for c in chunks], 'events': evs})
+        if info['thread_alive_after']:
+            dis.append(dict(ccs[-1], what='router thread still alive after the session was closed'))
+        if _inside_header(cuts, bounds):
+            nontriv.add(_h(['cpx', [list(c) for c in chunks], evs]))
+    run_blocks('c18h', terms, exp, lambda bi: ccs[bi], 30, header=HEADER_C)
+    dist['cpx_sessions'] = n_c
+    dist['cpx_event_kinds'] = ekinds
 
     # ---- G. UARTTransport (serial path): sessions of readPacket / writePacket over a scripted port
     n_u = ctx.scale(250, 4000)
@@ -1042,7 +1316,103 @@ def _check_uart_tunnel(mode, a, b, data, items):
     return None
 
 
+def _check_short_send(pkts, takes, cuts):
+    """the socket's send takes only part of what it is offered: the stream must still carry the whole frames"""
+    t = _transport([], takes)
+    for a in pkts:
+        t._socket.ti = 0
+        with _quiet():
+            t.writePacket(make_packet(*a))
+    stream = t._socket.stream()
+    ref = b''.join(_frame_ref(a[0], a[1], a[2], a[3], 0, a[4]) for a in pkts)
+    if stream != ref:
+        return {'observed': {'stream': list(stream[:80]), 'bytes': len(stream)}, 'expected': {'stream': list(ref[:80]), 'bytes': len(ref)},
+                'detail': 'send() took %s bytes per call; the rest of the frame never reached the stream' % takes}
+    r = impl_read_n(_cut(stream, cuts), len(pkts))[0]
+    want = [0] + coqrun.flat([[0, a[0], a[1], a[2], a[3], 0, len(a[4]), len(a[4])] + list(a[4]) for a in pkts])
+    if r != want:
+        return {'observed': r[:60], 'expected': want[:60]}
+    return None
+
+
+def _check_stale_length(a, new_data, cuts):
+    """packet built, then its data assigned (as one fills in a default-constructed CPXPacket): must still frame"""
+    p = make_packet(*a)
+    p.data = bytearray(new_data)
+    enc, b = impl_write(p)
+    ref = _frame_ref(a[0], a[1], a[2], a[3], 0, new_data) + _frame_ref(3, 1, 1, 0, 0, [7])
+    if b is None:
+        return {'observed': enc}
+    _, b2 = impl_write(make_packet(3, 1, 1, 0, [7]))
+    stream = b + b2
+    r = impl_read_n(_cut(stream, cuts), 2)[0]
+    want = [0] + coqrun.flat([[0, a[0], a[1], a[2], a[3], 0, len(new_data), len(new_data)] + list(new_data),
+                              [0, 3, 1, 1, 0, 0, 1, 1, 7]])
+    if stream != ref or r != want:
+        return {'observed': {'stream': list(stream[:60]), 'read': r[:40]}, 'expected': {'stream': list(ref[:60]), 'read': want[:40]},
+                'detail': 'length prefix does not describe the data that follows'}
+    return None
+
+
+def _check_uart_oversize(n_big, then):
+    """a packet too large for the UART framing is refused; the packets after it must still go out"""
+    t = _uart(b'')
+    refused = None
+    with _quiet():
+        try:
+            t.writePacket(make_packet(3, 1, 5, 0, [1] * n_big))
+        except Exception as e:  # noqa
+            refused = type(e).__name__
+        if refused is None:
+            return None if n_big <= 98 else {'observed': 'oversize packet written: %d bytes' % len(t._serial.written[-1])}
+        nw = len(t._serial.written)
+        drv, _, _ = _driver('serial', t)
+        try:
+            drv.send_packet(_crtp(0, then[0], then[1], then[2]))
+        except _WouldBlock:
+            return {'observed': 'send_packet blocks for ever in lock.acquire(): refused packet (%s) left the flow-control lock held' % refused,
+                    'expected': 'CRTP packet written to the port'}
+    ref = _uart_frame_ref(3, 1, 3, 0, 0, [((then[0] & 15) << 4) | 12 | (then[1] & 3)] + list(then[2]))
+    if t._serial.written[nw:] != [ref]:
+        return {'observed': [list(x) for x in t._serial.written[nw:]], 'expected': list(ref)}
+    return None
+
+
+def _check_cpx_facade(pkts, cuts, takes, sends, trans):
+    """real CPX object, router thread running: per-function FIFO, whole frames out, transaction reply, clean close"""
+    stream = b''.join(_frame_ref(a[0], a[1], a[2], a[3], 0, a[4]) for a in pkts)
+    reply = [1, 3, trans[2], 1, [0xEE] + list(trans[4])]
+    stream += _frame_ref(reply[0], reply[1], reply[2], reply[3], 0, reply[4])
+    fs = sorted(set(a[2] for a in pkts))
+    evs = [['R', f] for f in fs] + [['S', a] for a in sends] + [['P']] * len(pkts)
+    drain = []
+    for f in fs:
+        drain += [['R', f]] * (sum(1 for a in pkts if a[2] == f) + 1)
+    evs += drain + [['T', trans, 1], ['C'], ['P']]
+    out, obs, info = impl_cpx_session(_cut(stream, cuts), takes, evs)
+    want = [[20, f, 0] for f in fs]
+    want += [[21, 0, len(a[4]) + 4] + list(_frame_ref(a[0], a[1], a[2], a[3], 0, a[4])) for a in sends]
+    for f in fs:
+        for a in pkts:
+            if a[2] == f:
+                want.append([20, f, 1, a[0], a[1], a[2], a[3], 0, len(a[4]), len(a[4])] + list(a[4]))
+        want.append([20, f, 0])
+    tf = _frame_ref(trans[0], trans[1], trans[2], trans[3], 0, trans[4])
+    want.append([22, 0, len(tf)] + list(tf) + [1, reply[0], reply[1], reply[2], reply[3], 0, len(reply[4]), len(reply[4])] + reply[4])
+    want.append([23, 1])
+    if obs != want:
+        k = next((i for i, (x, y) in enumerate(zip(obs, want)) if x != y), min(len(obs), len(want)))
+        return {'observed': obs[k:k + 2], 'expected': want[k:k + 2], 'detail': 'observation no. %d of the session' % k}
+    if info['thread_alive_after']:
+        return {'observed': 'router thread alive after close()'}
+    return None
+
+
 _CHECKS = {
+    'short_send_loses_bytes': lambda c: _check_short_send(c['packets'], c['takes'], c['cuts']),
+    'stale_length_misframes': lambda c: _check_stale_length(c['packet'], c['new_data'], c['cuts']),
+    'uart_oversize_wedges_link': lambda c: _check_uart_oversize(c['big'], c['then']),
+    'cpx_facade_violated': lambda c: _check_cpx_facade(c['packets'], c['cuts'], c['takes'], c['sends'], c['trans']),
     'uart_roundtrip_changed': lambda c: _check_uart_roundtrip(*c['args']),
     'uart_tunnel_changed': lambda c: _check_uart_tunnel(c['mode'], c['a'], c['b'], c['data'], [tuple(x) for x in c['items']]),
     'roundtrip_field_changed': lambda c: _check_roundtrip(*c['args']),
@@ -1172,6 +1542,31 @@ def oracle(ctx, deep=False):
         L = sum(len(it[4]) + 5 for it in items)
         bounds = list(itertools.accumulate([0] + [len(it[4]) + 5 for it in items]))[:-1]
         chk('tunnel_downlink_changed', {'driver': kind, 'items': items, 'cuts': list(_rand_cuts(rng, L, bounds))})
+    # 5b. sending side: short writes, data assigned after construction; the facade with its thread
+    chk('short_send_loses_bytes', {'packets': [[3, 1, 3, 0, []]], 'takes': [3], 'cuts': []})
+    chk('stale_length_misframes', {'packet': [3, 1, 3, 0, []], 'new_data': [1], 'cuts': []})
+    for _ in range(ctx.scale(200, 3000)):
+        ps = _rand_pkts(rng, rng.choice([1, 2, 3]))
+        L = sum(len(p[4]) + 4 for p in ps)
+        chk('short_send_loses_bytes', {'packets': ps, 'takes': [rng.choice([1, 2, 3, 4, 5, 50]) for _ in range(rng.randrange(1, 5))],
+                                       'cuts': list(_rand_cuts(rng, L, _bounds(ps)))})
+        a = _rand_pkts(rng, 1)[0]
+        nd = _rand_payload(rng)
+        chk('stale_length_misframes', {'packet': a, 'new_data': nd, 'cuts': list(_rand_cuts(rng, len(nd) + 9, [0, len(nd) + 4]))})
+    chk('cpx_facade_violated', {'packets': [[1, 3, 3, 0, [0, 0]], [1, 3, 3, 1, [0, 1]]], 'cuts': [], 'takes': [], 'sends': [[3, 1, 1, 0, [33, 1]]],
+                                'trans': [3, 1, 5, 0, [4]]})
+    for _ in range(ctx.scale(60, 1000)):
+        ps = _rand_pkts(rng, rng.choice([1, 2, 3, 5]), tag=True)
+        fs = rng.sample(FUNCTIONS, 2)
+        for p in ps:
+            p[2] = rng.choice(fs)
+        L = sum(len(p[4]) + 4 for p in ps)
+        chk('cpx_facade_violated', {'packets': ps, 'cuts': list(_rand_cuts(rng, L, _bounds(ps))),
+                                    'takes': [rng.choice([1, 2, 3, 9]) for _ in range(rng.randrange(0, 4))],
+                                    'sends': _rand_pkts(rng, rng.randrange(0, 3)),
+                                    'trans': [3, 1, rng.choice([f for f in FUNCTIONS if f not in fs]), 0, [rng.randrange(256)]]})
+    for n_big in (99, 150, 98):
+        chk('uart_oversize_wedges_link', {'big': n_big, 'then': [5, 2, [1, 2, 3]]})
     # 6. serial path: UART framing and the tunnel over it (smallest cases first: they become the witness)
     chk('uart_roundtrip_changed', {'args': [3, 1, 3, 0, []]})
     chk('uart_roundtrip_changed', {'args': [4, 2, 15, 1, [255]]})
